@@ -1,5 +1,6 @@
 """C08 -- parsing depends only on format and input (no state outlives one parse)."""
 import hir, mir, maps
+from hir import strip, field_path
 from facts import AnchorMissing
 
 LEVEL = "other"
@@ -332,6 +333,28 @@ def run(ctx):
     import roles as _roles
     _roles.rule_R_ROLE(ctx, modules=('conversion::string::impl_enum::parser', 'conversion::string::impl_lexical::parser'))
     _roles.rule_A_NAMES(ctx, modules=('conversion::string::impl_enum::parser', 'conversion::string::impl_lexical::parser'))
+    # "parsing from a character vector equals parsing from the string": the ONLY step from the input text to the character environment is
+    # `input.chars().collect()` (seed c08-h trimmed the text there, so parse(" x\n") and parse_chars of the same characters differed)
+    ctx.rule("S-ENV", "the enum parser's environment is exactly the characters of the input: _build_env(input) = input.chars().collect(), and every "
+             "Vec<char> built from a &str in impl_enum::parser is built by _build_env")
+    be = [it for p_, it in f.hir.items() if it["name"] == "_build_env" and "impl_enum::parser" in p_]
+    if len(be) != 1:
+        raise AnchorMissing("enum ParseState::_build_env")
+    ctx.fn(be[0])
+    bp = [q["name"] for q in be[0]["params"] if q.get("k") == "Binding"]
+    t_ = hir.through_lets(hir.last_expr(be[0]["body"]), hir.let_env(be[0]["body"]))
+    ok_env = t_["k"] == "MethodCall" and t_["method"] == "collect" and strip(t_["recv"])["k"] == "MethodCall" and strip(t_["recv"])["method"] == "chars" \
+        and (strip(t_["recv"]).get("def") or "").endswith("str>::chars") and len(bp) == 1 and field_path(strip(t_["recv"])["recv"]) == (bp[0],) \
+        and len(hir.find_calls(be[0]["body"])) == 2
+    ctx.ob("S-ENV", "_build_env(input) = input.chars().collect()", ok_env, "the text must reach the environment unchanged (no trim / filter / map)")
+    others = []
+    for p_, it in sorted(f.hir.items()):
+        if "impl_enum::parser" not in p_ or it.get("body") is None or it["name"] == "_build_env" or "::tests" in p_:
+            continue
+        for c in hir.find_calls(it["body"], "collect"):
+            if "Vec<char>" in (c.get("ty") or "") and any(x.get("k") == "MethodCall" and x.get("method") == "chars" for x in hir.walk(c["recv"])):
+                others.append("%s:%s" % (it["name"], c.get("line")))
+    ctx.ob("S-ENV", "no other function of the enum parser turns a &str into a Vec<char>", not others, "%s" % others)
     ctx.undecided = ["nothing of substance: determinism of a state-free, deterministic function is the absence of carried state; "
                      "std/dep callees (HashSet iteration order aside, see C06/C07) are assumed deterministic"]
     ctx.assumptions = ["MIR construction and call resolution are correct", "external callees do not keep state between calls"]
